@@ -4,4 +4,4 @@ CONSTANTS
   Writers = {"w1", "w2"}
   Vals = {"d0", "d1", "none"}
 INVARIANTS Inv NoRace Sane
-CHECK_DEADLOCK FALSE
+CHECK_DEADLOCK TRUE
